@@ -31,6 +31,7 @@ ENTRY = dict(
             "'changes nothing on error' for days of any length": "theorem for 48-slot days (set_never_index_error_48, set_error_inert); false for shorter hand-made days (set_partial_on_short_day), outside the statement",
             "commit() of a Schedule object kept across later responses sends THAT object (its received week + exactly the edits made to it), switch / parameter of the device": "theorem (heap machine: kept_content, handle_commit_then_drain; refines_sys ties it to the lookup-only machine)",
             "40 distinct schedule names, switch/parameter names at positions 2i / 2i+1, 42-byte bitmap": "table",
+            "the accepted states and the states that switch a slot on are the source's get_args(ScheduleState) / ON_STATES / OFF_STATES": "table (C18.states_pinned against Generated/ScheduleStates.lean, rewritten by the translator on every run)",
             "parsing of '%H:%M' strings": "correspondence (strptime trusted)",
             "model = ScheduleDay / SchedulesStructure / EcoMAX._add_schedules / Schedule.commit": "correspondence",
             "every schedule a well-formed schedules response carries (any header bytes, any number of entries, the entry at any place) is decoded, in order, and offered by the device for editing and commit": "correspondence (wire layout)",
